@@ -145,6 +145,9 @@ def check_keyed(case, ctx) -> Result:
             if got[0] and got[1]:
                 res.violations.append(Viol("result_differs_from_fold", f"t={t}: the collection holds no valid element but the result is {got[1]}", dict(feats, live=0)))
                 break
+            if got[0] and not m.value:
+                # F32: no element left at all, no zero, and the result stays VALID (an empty dictionary)
+                res.violations.append(Viol("result_validity_wrong", f"t={t}: the collection is empty and there is no zero, but the keyed result is valid (empty dictionary) instead of invalid", dict(feats, live=0, emptied_keyed_reduce=True)))      # recorded; the rest of the history is still compared
             continue
         if not exp:
             # every live element is an empty dictionary: an empty result, valid or not, is accepted (whether an element that
